@@ -55,12 +55,20 @@ func normFact(t *Term, pol bool) (*Term, bool) {
 
 // NecessaryEdges: all If edges every path entry -> target passes.
 func (g *Graph) NecessaryEdges(target NodePred) []Fact {
+	return g.NecessaryEdgesFrom([]*Node{g.Entry}, target)
+}
+
+// NecessaryEdgesFrom: all If edges every path from one of the sources to a target passes.
+func (g *Graph) NecessaryEdgesFrom(sources []*Node, target NodePred) []Fact {
 	targets := g.Select(target)
 	if len(targets) == 0 {
 		return nil
 	}
 	// candidate edges: those from which a target is reachable and that are reachable from entry
-	fwd := g.Live()
+	fwd := g.Reachable(sources, nil)
+	for _, s := range sources {
+		fwd[s] = true
+	}
 	// backward reachability from targets
 	back := map[*Node]bool{}
 	var q []*Node
@@ -89,7 +97,7 @@ func (g *Graph) NecessaryEdges(target NodePred) []Fact {
 		if target(e) {
 			to = func(x *Node) bool { return x != e && target(x) }
 		}
-		if g.PathAvoiding([]*Node{g.Entry}, to, func(x *Node) bool { return x == e }) == nil {
+		if g.PathAvoiding(sources, to, func(x *Node) bool { return x == e }) == nil {
 			t, pol := CondTerm(n)
 			t, pol = normFact(t, pol)
 			out = append(out, Fact{Cond: t, Pol: pol, Node: n})
@@ -292,6 +300,15 @@ type acceptKey struct {
 // AcceptDNF computes the alternatives for result k of fn (rendered in ctx, which may bind the
 // parameters to a call site). depth bounds the nesting of helper expansion.
 func (p *Prog) AcceptDNF(fn *ssa.Function, ctx *Ctx, k int, depth int) []FactSet {
+	return p.resultDNF(fn, ctx, k, depth, false)
+}
+
+// RejectDNF: the alternatives under which result k is rejecting (non-nil error / false).
+func (p *Prog) RejectDNF(fn *ssa.Function, ctx *Ctx, k int, depth int) []FactSet {
+	return p.resultDNF(fn, ctx, k, depth, true)
+}
+
+func (p *Prog) resultDNF(fn *ssa.Function, ctx *Ctx, k int, depth int, reject bool) []FactSet {
 	if fn == nil || fn.Blocks == nil || k < 0 {
 		return nil
 	}
@@ -309,26 +326,25 @@ func (p *Prog) AcceptDNF(fn *ssa.Function, ctx *Ctx, k int, depth int) []FactSet
 	addAlt := func(target NodePred, v ssa.Value, at *ssa.BasicBlock) {
 		var extra *Fact
 		if isErr {
-			switch classifyValueAt(v, at) {
-			case rcA:
+			cls := classifyValueAt(v, at)
+			switch {
+			case (cls == rcA) != reject && cls != rcU:
 				return
-			case rcB:
-			default:
+			case cls == rcU:
 				t := TermOf(v, ctx)
 				if t.Op == "call" || t.Op == "invoke" || (t.Op == "extract" && (t.Args[0].Op == "call" || t.Args[0].Op == "invoke")) {
 					nilT := mk("const", "nil", nil, ctx)
-					extra = &Fact{Cond: mk("bin", "!=", nil, ctx, t, nilT), Pol: false}
+					extra = &Fact{Cond: mk("bin", "!=", nil, ctx, t, nilT), Pol: reject}
 				}
 			}
 		} else {
 			if c, ok := v.(*ssa.Const); ok {
-				if c.Value != nil && c.Value.String() == "true" {
-					// unconditional accept
-				} else {
+				isTrue := c.Value != nil && c.Value.String() == "true"
+				if isTrue == reject {
 					return
 				}
 			} else {
-				t, pol := normFact(TermOf(v, ctx), true)
+				t, pol := normFact(TermOf(v, ctx), !reject)
 				extra = &Fact{Cond: t, Pol: pol}
 			}
 		}
@@ -336,7 +352,16 @@ func (p *Prog) AcceptDNF(fn *ssa.Function, ctx *Ctx, k int, depth int) []FactSet
 		if extra != nil {
 			fs = append(fs, *extra)
 		}
-		alts = append(alts, p.closeFacts(fs, depth))
+		if !reject {
+			fs = p.closeFacts(fs, depth)
+		}
+		key := strings.Join(fs.Strings(), " ; ")
+		for _, a := range alts {
+			if strings.Join(a.Strings(), " ; ") == key {
+				return // duplicate alternative (same facts through another return site)
+			}
+		}
+		alts = append(alts, fs)
 	}
 	for _, x := range g.Exits {
 		ret := x.In.(*ssa.Return)
